@@ -1,6 +1,6 @@
 """Recorder for C14: runs write/read histories on live PySpark 3.5.9 and stores the outcomes in oracle/c14_pyspark.jsonl.
 
-usage:  PYSPARK_PYTHON=/venv/bin/python PYTHONPATH=/verif /venv/bin/python oracle/record_c14.py
+usage:  PYSPARK_PYTHON=/venv/bin/python PYTHONPATH=/verif /venv/bin/python oracle/record_c14.py [OUT.jsonl]
 
 The histories use the op encoding of checks/c14.py, so that the check can feed them to the Coq Spec (`check_spec`)
 unchanged.  Recorded: every ordered pair of the six save modes on a table and on a parquet / json / csv path, the mode
@@ -18,7 +18,7 @@ import sys
 sys.path.insert(0, "/verif")
 from checks import c14  # noqa: E402
 
-OUT = "/verif/oracle/c14_pyspark.jsonl"
+OUT = sys.argv[1] if len(sys.argv) > 1 else "/verif/oracle/c14_pyspark.jsonl"
 ROOT = f"/var/tmp/c14_spark_{os.getpid()}"
 SPARK_TY = {"int": "long", "str": "string", "bool": "boolean"}
 
